@@ -172,11 +172,11 @@ def _replay_obligation(contract, agg_ob, pid):
             spec = [w for (exc, w) in contract.raises if isinstance(raised, exc)]
             if not spec:
                 problems.append("raised %s which the contract does not allow" % type(raised).__name__)
-            elif not any(eval(w, env) for w in spec):
+            elif not any(w is None or eval(w, env) for w in spec):
                 problems.append("raised %s outside its specified condition" % type(raised).__name__)
         else:
             for exc, w in contract.raises:
-                if eval(w, env):
+                if w is not None and eval(w, env):
                     problems.append("did not raise %s although (%s) holds" % (exc.__name__, w))
             for i, cl in enumerate(contract.ensures):
                 try:
